@@ -98,6 +98,18 @@ Definition is_prerelease (v : version) : bool := negb (is_none (pre v)) || negb 
 Definition is_postrelease (v : version) : bool := negb (is_none (post v)).
 Definition nth0 (l : list N) (i : nat) : N := nth i l 0.
 
+(* the `~=` test of RangeSpecifier._simplified_form on min and max (both present, min != max, [min, max) ) *)
+Definition tilde_ok (m M : version) : bool :=
+  let min_stable0 := epoch m :: release m in
+  let max_stable0 := epoch M :: release M in
+  let max_length := Nat.max (List.length min_stable0) (List.length max_stable0) in
+  let min_stable := pad_zeros min_stable0 max_length in
+  let max_stable := pad_zeros max_stable0 max_length in
+  let fd := first_different_index min_stable max_stable in
+  if Nat.leb (List.length min_stable - 1) fd || Nat.eqb fd 0 then false      (* all equal, or only the last one differs, or the epochs differ *)
+  else if negb (nth0 max_stable fd - nth0 min_stable fd =? 1) || (nth0 max_stable fd <? nth0 min_stable fd) then false
+  else all_zero (skipn (S fd) max_stable) && negb (is_prerelease M) && Nat.eqb (List.length (release m)) (S fd).
+
 (* RangeSpecifier._simplified_form: None = not simple; Some l = the clauses of the text ("" = []) *)
 Definition range_simplified (r : range) : pyres (option (list clause)) :=
   match rsimp r with
@@ -110,18 +122,7 @@ Definition range_simplified (r : range) : pyres (option (list clause)) :=
       | Some m, Some M =>
           if veqb m M then Ret (Some [mkClause OpEq m])
           else if negb (imin r) || imax r then Ret None
-          else
-            let min_stable0 := epoch m :: release m in
-            let max_stable0 := epoch M :: release M in
-            let max_length := Nat.max (List.length min_stable0) (List.length max_stable0) in
-            let min_stable := pad_zeros min_stable0 max_length in
-            let max_stable := pad_zeros max_stable0 max_length in
-            let fd := first_different_index min_stable max_stable in
-            if Nat.leb (List.length min_stable - 1) fd || Nat.eqb fd 0 then Ret None
-            else if negb (nth0 max_stable fd - nth0 min_stable fd =? 1) || (nth0 max_stable fd <? nth0 min_stable fd) then Ret None
-            else if all_zero (skipn (S fd) max_stable) && negb (is_prerelease M) && Nat.eqb (List.length (release m)) (S fd)
-                 then Ret (Some [mkClause OpCompat m])
-                 else Ret None
+          else if tilde_ok m M then Ret (Some [mkClause OpCompat m]) else Ret None
       end
   end.
 
@@ -137,6 +138,23 @@ Definition range_clauses (r : range) : pyres (list clause) :=
       end
   end.
 
+(* the `!=X.*` test of UnionSpecifier._simplified_form on left.max and right.min: the prefix X, if any *)
+Definition nestar_prefix (lM rm : version) : pyres (option version) :=
+  if is_prerelease lM || is_prerelease rm || is_postrelease lM || is_postrelease rm then Ret None
+  else
+    let left_stable0 := epoch lM :: release lM in
+    let right_stable0 := epoch rm :: release rm in
+    let max_length := Nat.max (List.length left_stable0) (List.length right_stable0) in
+    let left_stable := pad_zeros left_stable0 max_length in
+    let right_stable := pad_zeros right_stable0 max_length in
+    let fd := first_different_index left_stable right_stable in
+    if Nat.ltb 0 fd && Nat.leb (List.length right_stable) fd then Raise IndexError      (* right_stable[first_different] *)
+    else if Nat.ltb 0 fd && (nth0 right_stable fd - nth0 left_stable fd =? 1) && negb (nth0 right_stable fd <? nth0 left_stable fd)
+            && all_zero (skipn (S fd) left_stable ++ skipn (S fd) right_stable)
+            && negb (Nat.eqb (List.length (skipn (S fd) left_stable ++ skipn (S fd) right_stable)) 0)
+    then Ret (Some (relver (epoch lM) (firstn fd (tl left_stable))))
+    else Ret None.
+
 (* UnionSpecifier._simplified_form *)
 Definition union_simplified (u : union) : pyres (option (list clause)) :=
   match usimp u with
@@ -150,25 +168,13 @@ Definition union_simplified (u : union) : pyres (option (list clause)) :=
             match rmin lft, rmax rgt, rmax lft, rmin rgt with
             | None, None, Some lM, Some rm =>
                 if negb (imax lft) && imin rgt then
-                  if is_prerelease lM || is_prerelease rm || is_postrelease lM || is_postrelease rm then Ret None
-                  else
-                    let left_stable0 := epoch lM :: release lM in
-                    let right_stable0 := epoch rm :: release rm in
-                    let max_length := Nat.max (List.length left_stable0) (List.length right_stable0) in
-                    let left_stable := pad_zeros left_stable0 max_length in
-                    let right_stable := pad_zeros right_stable0 max_length in
-                    let fd := first_different_index left_stable right_stable in
-                    if Nat.ltb 0 fd && Nat.leb (List.length right_stable) fd then Raise IndexError
-                    else if Nat.ltb 0 fd && (nth0 right_stable fd - nth0 left_stable fd =? 1) && negb (nth0 right_stable fd <? nth0 left_stable fd)
-                       && all_zero (skipn (S fd) left_stable ++ skipn (S fd) right_stable)
-                       && negb (Nat.eqb (List.length (skipn (S fd) left_stable ++ skipn (S fd) right_stable)) 0)
-                    then Ret (Some [mkClause OpNeStar (relver (epoch lM) (firstn fd (tl left_stable)))])
-                    else Ret None
+                  o <- nestar_prefix lM rm ;;
+                  Ret (match o with Some p => Some [mkClause OpNeStar p] | None => None end)
                 else Ret None
             | _, _, _, _ => Ret None
             end
       | _ :: _ :: _ :: _ => Ret None
-      | _ => Raise ValueError                     (* lft, rgt, *rest = self.ranges with fewer than two ranges *)
+      | _ => Raise ValueError                     (* left, right, *rest = self.ranges with fewer than two ranges *)
       end
   end.
 
